@@ -62,3 +62,98 @@ Fixpoint arun (static : akey -> bool) (x : exits) (s : astate) (ls : list alabel
   | [] => Some s
   | l :: r => match astep static x s l with Some s' => arun static x s' r | None => None end
   end.
+
+(* ------------------------------------------------------------------------
+   What the allowlist cache is KEYED by.  conversion._ALLOWLIST_CACHE is a
+   cache.UnboundInstanceCache; its _get_key is GENERATED (C10_gen.v,
+   allowlist_key_chain) as the chain of projections it applies to the callable
+   handed to converted_call.  The callables are function objects, possibly
+   handed over as bound methods; a function object may carry __wrapped__
+   (functools.wraps / update_wrapper: malt's own convert / do_not_convert
+   wrappers, user decorators) and has a code object that other function
+   objects may share.  Requests are ABOUT function objects (the reasons to run
+   one as-is -- `static` -- belong to the function object: a do_not_convert
+   wrapper is an artifact, the function it wraps is not); the cache is read and
+   written at the KEY.  The machine below is the one above with that
+   distinction made. *)
+Inductive kproj : Set :=
+| PFunc        (* entity.__func__ when entity is a bound method *)
+| PWrapped     (* getattr(entity, '__wrapped__', entity) *)
+| PCode.       (* getattr(entity, '__code__', entity) *)
+Definition akey_chain := list kproj.
+
+Record fobj := mkF { f_wrapped : option nat; f_code : nat }.
+Definition fheap := nat -> fobj.                 (* function object id -> its attributes *)
+
+Inductive kobj : Set :=
+| KFn (f : nat)        (* the function object f *)
+| KMeth (f : nat)      (* a bound-method object around f *)
+| KCode (c : nat).     (* a code object *)
+Definition kobj_eqb (a b : kobj) : bool :=
+  match a, b with
+  | KFn x, KFn y | KMeth x, KMeth y | KCode x, KCode y => Nat.eqb x y
+  | _, _ => false
+  end.
+
+Definition kstep (h : fheap) (o : kobj) (p : kproj) : kobj :=
+  match p, o with
+  | PFunc, KMeth f => KFn f
+  | PWrapped, KFn f | PWrapped, KMeth f =>          (* a bound method forwards attribute reads to __func__ *)
+      match f_wrapped (h f) with Some g => KFn g | None => o end
+  | PCode, KFn f | PCode, KMeth f => KCode (f_code (h f))
+  | _, _ => o
+  end.
+Definition entity_key (chain : akey_chain) (h : fheap) (f : nat) (bound : bool) : kobj :=
+  fold_left (kstep h) chain (if bound then KMeth f else KFn f).
+
+(* the key is the function object itself (bound methods: their __func__) *)
+Definition chain_ok (chain : akey_chain) : bool :=
+  match chain with
+  | [] => false
+  | _ => forallb (fun p => match p with PFunc => true | _ => false end) chain
+  end.
+
+Definition ekey := (kobj * nat)%type.
+Definition ekey_eqb (a b : ekey) : bool := kobj_eqb (fst a) (fst b) && Nat.eqb (snd a) (snd b).
+
+Record ereq := mkEReq { e_fn : nat; e_bound : bool; e_opt : nat; e_disabled : bool }.
+
+Record estate := mkE {
+  eal : ekey -> bool;
+  epending : nat -> option ekey;
+  elog : list (ereq * bool)
+}.
+Definition einit : estate := mkE (fun _ => false) (fun _ => None) [].
+
+Inductive elabel : Set :=
+| EDecide (tid : nat) (r : ereq)
+| ECommit (tid : nat).
+
+Definition estep (chain : akey_chain) (h : fheap) (static : akey -> bool) (x : exits) (s : estate) (l : elabel)
+  : option estate :=
+  match l with
+  | EDecide tid r =>
+      match epending s tid with
+      | Some _ => None
+      | None =>
+        let k := (entity_key chain h (e_fn r) (e_bound r), e_opt r) in
+        let setp (w : bool) := fun j => if Nat.eqb j tid then (if w then Some k else None) else epending s j in
+        if eal s k then Some (mkE (eal s) (epending s) ((r, false) :: elog s))
+        else if e_disabled r then Some (mkE (eal s) (setp (ctx_exit_writes x)) ((r, false) :: elog s))
+        else if static (e_fn r, e_opt r) then Some (mkE (eal s) (setp (static_exit_writes x)) ((r, false) :: elog s))
+        else Some (mkE (eal s) (epending s) ((r, true) :: elog s))
+      end
+  | ECommit tid =>
+      match epending s tid with
+      | Some k => Some (mkE (fun j => if ekey_eqb j k then true else eal s j)
+                            (fun j => if Nat.eqb j tid then None else epending s j) (elog s))
+      | None => None
+      end
+  end.
+
+Fixpoint erun (chain : akey_chain) (h : fheap) (static : akey -> bool) (x : exits) (s : estate) (ls : list elabel)
+  : option estate :=
+  match ls with
+  | [] => Some s
+  | l :: r => match estep chain h static x s l with Some s' => erun chain h static x s' r | None => None end
+  end.
